@@ -211,6 +211,12 @@ class ShareMachine(ohist.Machine):
                         out.append(("remove", s))
                     out.append(("edit", s))
                     out.append(("poke", s))
+        if self.t == R.T_PLATCAL:
+            # bulk add, and a bulk add that is refused half-way (whatever it leaves behind must stay in THAT block)
+            for s in range(self.nslots):
+                if model[s] is not None and len(model[s]["items"]) + 2 <= MAXITEMS + 1:
+                    out.append(("bulk", s, nxt))
+                    out.append(("bulk_refused", s, nxt))
         if self.t in (R.T_DATA3D, R.T_FORCE3D):
             # dst.tracks = src.tracks : the list the getter hands out is assigned to another block; the
             # blocks then hold the same track objects (ordinary aliasing of items) but must not share the list
@@ -254,6 +260,21 @@ class ShareMachine(ohist.Machine):
                 sp = self._decode_spec()
                 impl[s] = specs.lib_decode(t, sp["format"], R.encode_block(sp))[0]
                 model[s] = sp
+            elif kind == "bulk":
+                impl[s].add_platforms([a.item(op[2])])
+                chans = [int(c) for c, _ in impl[s].platforms]
+                model[s]["items"].append((chans[-1], a.spec([op[2]])["items"][0][1]))
+            elif kind == "bulk_refused":
+                try:
+                    impl[s].add_platforms([a.item(op[2]), "not a platform"])
+                    raise ohist.Prune()
+                except ohist.Prune:
+                    raise
+                except Exception:  # noqa: BLE001 - refused; the first item may or may not have been taken
+                    pass
+                pairs = [(int(c), p) for c, p in impl[s].platforms]
+                if len(pairs) == len(model[s]["items"]) + 1:
+                    model[s]["items"].append((pairs[-1][0], a.spec([op[2]])["items"][0][1]))
             elif kind == "assign_from":
                 src = op[2]
                 impl[s].tracks = impl[src].tracks
@@ -304,7 +325,7 @@ class ShareMachine(ohist.Machine):
                 elif t == R.T_OPT:
                     d["index"] = d["index"] + 16
                     lit.logical_camera_index = lit.logical_camera_index + 16
-        except core.Violation:
+        except (core.Violation, ohist.Prune):
             raise
         except Exception as e:  # noqa: BLE001
             raise self.V("operation-raises", f"{self.describe(op)}: {type(e).__name__}: {e}", kind)
